@@ -15,7 +15,7 @@
 (* occurs on both sides), plus the full product of the small core sets.    *)
 (* Stride = 1 is the full product.                                         *)
 (***************************************************************************)
-EXTENDS Builtins, Json
+EXTENDS BuiltinsSig      \* Builtins + Json + the SIG line (table export)
 
 CONSTANTS Stride,    \* sampling stride of binary products (1 = full)
           Stride3,   \* sampling stride of ternary/quaternary products
@@ -31,10 +31,10 @@ SBndSet(W) == {z \in PosBnd(W) \cup {Neg(z) : z \in PosBnd(W)} : InS(z, W)}
 UBndSet(W) == {z \in PosBnd(W) \cup {UMax(W), Sub(UMax(W), One)} : InU(z, W)}
 Half(W)    == W \div 2
 SCoreSet(W) ==
-  {z \in {Zero, One, Neg(One), FromInt(2), FromInt(-2), FromInt(3), FromInt(-3), FromInt(10), FromInt(-7),
-          SMax(W), Sub(SMax(W), One), SMin(W), Add(SMin(W), One),
-          Pow2Z(Half(W)), Neg(Pow2Z(Half(W))), Add(Pow2Z(Half(W)), One), Neg(Sub(Pow2Z(Half(W)), One)),
-          Pow2Z(W - 2), Neg(Pow2Z(W - 2)), Sub(Pow2Z(Half(W) - 1), One)} : InS(z, W)}
+  {z \in {Zero, One, Neg(One), FromInt(2), FromInt(3), FromInt(-3), FromInt(10), FromInt(-7),
+          SMax(W), SMin(W), Add(SMin(W), One),
+          Pow2Z(Half(W)), Add(Pow2Z(Half(W)), One), Neg(Sub(Pow2Z(Half(W)), One)),
+          Neg(Pow2Z(W - 2)), Sub(Pow2Z(Half(W) - 1), One)} : InS(z, W)}
 UCoreSet(W) ==
   {z \in {Zero, One, FromInt(2), FromInt(3), FromInt(10), UMax(W), Sub(UMax(W), One),
           Pow2Z(W - 1), Sub(Pow2Z(W - 1), One), Add(Pow2Z(W - 1), One),
@@ -45,11 +45,11 @@ BPos == UNION {{Pow2Z(k), Sub(Pow2Z(k), One), Add(Pow2Z(k), One)} : k \in BKs}
         \cup {Zero, Z(FALSE, MFromDigits(<<1,2,3,4,5,6,7,8,9,0,1,2,3,4,5,6,7,8,9,0,1,2,3,4,5,6,7,8,9,0>>, 10)),
               Z(FALSE, MFromDigits(<<1,0,0,0,0,0,0,0,0,0,0,0,0,0,0,0,0,0,0,0>>, 10))}
 BBndSet  == BPos \cup {Neg(z) : z \in BPos}
-BCoreSet == {Zero, One, Neg(One), FromInt(2), FromInt(-2), FromInt(3), FromInt(-3), FromInt(10),
-             Pow2Z(31), Neg(Pow2Z(31)), Pow2Z(32), Add(Pow2Z(32), One), Neg(Add(Pow2Z(32), One)),
-             Pow2Z(63), Neg(Pow2Z(63)), Sub(Pow2Z(63), One), Neg(Sub(Pow2Z(63), One)),
-             Pow2Z(64), Add(Pow2Z(64), One), Neg(Pow2Z(64)), Sub(Pow2Z(64), One),
-             Pow2Z(128), Neg(Sub(Pow2Z(128), One)), Sub(Pow2Z(62), One), Neg(Pow2Z(62))}
+BCoreSet == {Zero, One, Neg(One), FromInt(2), FromInt(-3), FromInt(10),
+             Neg(Pow2Z(31)), Add(Pow2Z(32), One),
+             Pow2Z(63), Neg(Pow2Z(63)), Sub(Pow2Z(63), One),
+             Pow2Z(64), Neg(Add(Pow2Z(64), One)), Sub(Pow2Z(64), One),
+             Pow2Z(128), Neg(Sub(Pow2Z(128), One))}
 
 SFloLits == {"0.0", "1.0", "-1.0", "0.5", "2.0", "3.0", "-3.0", "0.1", "1.5", "16777216.0", "16777217.0",
              "3.4028235e38", "-3.4028235e38", "1.17549435e-38", "1.0e-45", "1.1920929e-7", "1.0e10",
@@ -108,7 +108,11 @@ ModRes(n) == {z \in {Zero, One, FromInt(2), FromInt(3), Sub(n, One), Sub(n, From
                      QuoRem(n, FromInt(2)).q, Add(QuoRem(n, FromInt(2)).q, One),
                      Pow2Z(Half(SIntW)), Sub(Pow2Z(Half(SIntW)), One), Sub(Pow2Z(Half(SIntW) - 1), One)} :
                 ~z.neg /\ Lt(z, n)}
-ModCases == UNION {ModRes(n) \X ModRes(n) \X {n} : n \in ModN}
+MStride == IF Stride > 4 THEN 3 ELSE 1
+ModCases == UNION { LET rs == SetToSeq(ModRes(n)) IN
+                    {<<rs[p[1]], rs[p[2]], n>> :
+                        p \in {q \in (1..Len(rs)) \X (1..Len(rs)) : (q[1] + 2 * q[2] + Offset) % MStride = 0}}
+                  : n \in ModN}
 
 ShiftKs  == {FromInt(k) : k \in {0, 1, 2, 7, 15, 16, 17, 31, 32, 33, 62, 63, 64, 65, 100, 128, 200}}
 PowBases == {Zero, One, Neg(One), FromInt(2), FromInt(-2), FromInt(3), FromInt(-3), FromInt(10),
@@ -148,7 +152,10 @@ RawCases(o) ==
     [] o = "CharNum" -> {<<FromInt(c)>> : c \in 0..127}
     [] o \in {"SIntPlusMod", "SIntMinusMod", "SIntTimesMod"} -> ModCases
     [] o = "SIntTimesModInv" -> {<<FromInt(5), FromInt(7), FromInt(11), "0.09090909090909091">>}
-    [] o \in {"BIntShiftUp", "BIntShiftDn", "BIntShiftRem", "BIntBit"} -> TSet("BInt") \X ShiftKs
+    [] o \in {"BIntShiftUp", "BIntShiftDn", "BIntShiftRem", "BIntBit"} ->
+           LET zs == TSeq["BInt"]  ks == SetToSeq(ShiftKs)  st == IF Stride > 8 THEN 8 ELSE Stride
+           IN {<<zs[p[1]], ks[p[2]]>> : p \in {q \in (1..Len(zs)) \X (1..Len(ks)) : (q[1] + 3 * q[2] + Offset) % st = 0}}
+              \cup ({Zero, One, Neg(One), Pow2Z(64), Neg(Add(Pow2Z(64), One))} \X ShiftKs)
     [] o \in {"BIntSIPower", "BIntBIPower"} -> PowBases \X PowExps
     [] o = "BIntPowerMod" -> PMBases \X PMExps \X PowMods
     [] o = "ArrToSInt" -> {<<s>> : s \in ArrSIntLits}
@@ -189,9 +196,4 @@ Spec == Init /\ [][Next]_<<op, args, ph>>
 
 (* the definition always yields values of the declared result types          *)
 Typed == ph = 1 => ResultTyped(op, args)
-(* the table itself, exported once *)
-SigLine == PrintT("SIG " \o ToJson([i \in 1..Len(Table) |->
-                     [op |-> Table[i].op, args |-> Table[i].args, res |-> ResTypes(Table[i].op),
-                      defined |-> Table[i].op \in DefinedOps]]))
-ASSUME SigLine
 =============================================================================
